@@ -359,24 +359,37 @@ def stale_derived_attributes(ctx, cls):
 
 
 # ------------------------------------------------------------------ how elements get into a local list, whatever the spelling
-def inclusion_sites(ctx, f, name):
+def inclusion_sites(ctx, f, name, _seen=None):
     """[(node, element expression, atoms)] the ways elements enter the local list / set `name`: the element of a comprehension that
     defines it (atoms = its `if` conditions), and `name.append(e)` / `name.add(e)` calls (atoms = the conditions that dominate the
     call inside the function, flags expanded).  The iterated source is in `iter_sources`."""
     from ..engine import local_defs
     out = []
+    _seen = _seen or set()
+    if name in _seen:
+        return out
+    _seen.add(name)
     for d in local_defs(f, name):
         if isinstance(d, tuple):
             continue
+        if isinstance(d, ast.Name):          # name = other_list: what entered the other list entered this one
+            out += inclusion_sites(ctx, f, d.id, _seen)
+            continue
+        def _outer(d_):          # what dominates the statement the comprehension stands in
+            cfg_ = cfg_of(f)
+            for n_ in cfg_.nodes:
+                if any(y is d_ for y in cfg_.node_walk(n_.id)):
+                    return set(dom_guard(ctx, f, n_.id))
+            return set()
         if isinstance(d, (ast.ListComp, ast.SetComp, ast.GeneratorExp)):
-            at = set()
+            at = _outer(d)
             for g in d.generators:
                 for c in g.ifs:
                     at |= atoms_of(c, True)
             out.append((d, d.elt, at, [g.iter for g in d.generators]))
         elif isinstance(d, ast.Call) and fn_name(d) in ("list", "set", "sorted", "tuple") and d.args and isinstance(d.args[0], (ast.ListComp, ast.GeneratorExp)):
             c0 = d.args[0]
-            at = set()
+            at = _outer(d)
             for g in c0.generators:
                 for c in g.ifs:
                     at |= atoms_of(c, True)
@@ -389,6 +402,47 @@ def inclusion_sites(ctx, f, name):
                 loops = [l.ast.iter for l in cfg.nodes if l.kind == "for" and any(y is x for st in l.ast.body for y in ast.walk(st))]
                 out.append((x, x.args[0], set(dom_guard(ctx, f, n.id)), loops))
     return out
+
+def value_pred(f, pred):
+    """text -> bool: the text of an atom's operand stands for a value `pred` accepts - written out, or a local that is defined
+    as such a value (so `resource > lur` and `int(result[attr]) > rec.largest_update_resource` read the same)"""
+    from ..engine import local_defs
+
+    def test(text):
+        try:
+            e = ast.parse(text, mode="eval").body
+        except SyntaxError:
+            return False
+        if pred(e):
+            return True
+        if isinstance(e, ast.Name):
+            ds = [d for d in local_defs(f, e.id)]
+            return any(not isinstance(d, tuple) and pred(d) for d in ds)       # one of its definitions (a default may replace None)
+        return False
+    return test
+
+
+def returned_list_sites(ctx, f, index=None):
+    """inclusion sites (see inclusion_sites) of the list the function returns (element `index` of a returned tuple, if given),
+    also when the comprehension is returned directly"""
+    from ..engine import returns_of
+    sites = []
+    for r in returns_of(f):
+        v = r.value
+        if index is not None:
+            if not (isinstance(v, ast.Tuple) and len(v.elts) > index):
+                continue
+            v = v.elts[index]
+        if isinstance(v, ast.Name):
+            sites += inclusion_sites(ctx, f, v.id)
+        elif isinstance(v, (ast.ListComp, ast.SetComp, ast.GeneratorExp)):
+            at = set()
+            for g in v.generators:
+                for c in g.ifs:
+                    at |= atoms_of(c, True)
+            sites.append((v, v.elt, at, [g.iter for g in v.generators]))
+    return sites
+
 
 def result_sites(ctx, f):
     """[(cfg node, value expression, atoms, inside a loop body?)]: the places that decide what the function returns, whichever way
